@@ -247,7 +247,10 @@ func (vr *variableResolver) resolve(ctx *ExecutionContext) (*Value, error) {
 
 	// we are resolving an in-template array definition
 	if len(vr.parts) > 0 && vr.parts[0].typ == varTypeArray {
-		items := make([]*Value, 0)
+		// The items are stored as plain values (not as *Value); otherwise they
+		// are wrapped twice when being accessed and won't be recognized as
+		// strings anymore (which bypasses autoescape, "in" and the filters).
+		items := make([]any, 0, len(vr.parts))
 		for _, part := range vr.parts {
 			switch v := part.subscript.(type) {
 			case *nodeFilteredVariable:
@@ -256,7 +259,7 @@ func (vr *variableResolver) resolve(ctx *ExecutionContext) (*Value, error) {
 					return nil, err
 				}
 
-				items = append(items, item)
+				items = append(items, item.Interface())
 			default:
 				return nil, errors.New("unknown variable type is given")
 			}
